@@ -428,6 +428,8 @@ class FnTotality:
         elif kind == "range" and self._range_symbolic_ok(ev, args):
             s.status = "discharged"
             s.why = "start <= end <= len by structural bounds (unsigned offsets, min() upper bound)"
+        elif kind == "range" and self._range_param_relative(ev, args, base, s):
+            pass
         elif kind == "range":
             if a is None or c is None or c[1] == INF:
                 s.why = "range bounds unknown (%s..%s)" % (a, c)
@@ -446,6 +448,29 @@ class FnTotality:
             else:
                 self.need_min(s, base, c[1] + (1 if kind == "toinc" else 0), "range end")
         self.sites.append(s)
+
+    def _range_param_relative(self, ev, args, base, s):
+        """`buf[off..off + k]` with `off` a by-value integer parameter and buf a slice parameter: start <= end holds by
+        construction and the obligation `len(buf) >= off + k` becomes a requirement on every caller ('minp')."""
+        ro = ev.range_operands(args[1])
+        if ro is None or base.sym is None or base.sym[1] != 0:
+            return False
+        k = ev.offset_between(ro[1], ro[2])
+        if k is None or k < 0:
+            return False
+        lf = ev.linform(ev.expr_key(ro[2], []))
+        if lf is None or len(lf[0]) != 1:
+            return False
+        (atom, coeff), = lf[0].items()
+        if coeff != 1 or atom[0] != "l" or not (0 < atom[1] <= self.fn["argc"]) or lf[1] < 0:
+            return False
+        td = self.f.ty(self.body.local_ty(atom[1]))
+        if td.get("k") != "uint":
+            return False
+        s.status = "req"
+        s.req = (base.sym[0], "minp", (atom[1], int(lf[1])))
+        s.why = "range end: requires len(%s) >= %s + %d" % (self.pname(base.sym[0]), self.pname(atom[1]), lf[1])
+        return True
 
     def _range_symbolic_ok(self, ev, args):
         ro = ev.range_operands(args[1])
@@ -530,6 +555,35 @@ class Totality:
                         if key in self.callreq_sites:
                             continue
                         if param - 1 >= len(args):
+                            continue
+                        if kind == "minp":
+                            # len(arg[param]) >= arg[value parameter] + c: evaluate the value argument here
+                            vp, cst = value
+                            if vp - 1 >= len(args):
+                                continue
+                            s = Site(a.fn, bi, "callreq", "call:%s:%s>=%s+%d" % (norm_name(tgt["name"]).split("::")[-1],
+                                     tgt["locals"][param][1] or "_%d" % param, tgt["locals"][vp][1] or "_%d" % vp, cst), line)
+                            L = a.slice_lenval(args[param - 1], bi)
+                            iv = a.ev.at_block(bi).op_ival(args[vp - 1], bi)
+                            if iv is None or iv[1] == INF or iv[1] >= (1 << 62):
+                                lf = a.ev.linform(a.ev.expr_key(args[vp - 1], []))
+                                atom = list(lf[0].items())[0] if lf is not None and len(lf[0]) == 1 else None
+                                if (atom is not None and atom[1] == 1 and atom[0][0] == "l" and 0 < atom[0][1] <= a.fn["argc"]
+                                        and L.sym is not None and L.sym[1] == 0 and lf[1] >= 0):
+                                    s.status = "req"
+                                    s.req = (L.sym[0], "minp", (atom[0][1], int(lf[1] + cst)))
+                                    s.why = "callee %s: requires len >= parameter + %d" % (tgt["name"], lf[1] + cst)
+                                else:
+                                    s.status = "open"
+                                    s.why = "callee %s: offset argument unbounded" % tgt["name"]
+                            else:
+                                a.need_min(s, L, iv[1] + cst, "callee %s" % tgt["name"])
+                            s.callee = origin
+                            self.callreq_sites[key] = s
+                            a.sites.append(s)
+                            if s.status == "req":
+                                self.reqs[fid].append((s.req[0], s.req[1], s.req[2], s))
+                            changed = True
                             continue
                         s = Site(a.fn, bi, "callreq", "call:%s:%s%s%d" % (norm_name(tgt["name"]).split("::")[-1],
                                  tgt["locals"][param][1] or "_%d" % param, ">=" if kind == "min" else "==", value), line)
